@@ -82,13 +82,13 @@ func (c *NoiseGrpcConn) Read(b []byte) (n int, err error) {
 	c.nextMsgMtx.Lock()
 	defer c.nextMsgMtx.Unlock()
 
-	// The last read was incomplete, return the few bytes that didn't fit.
+	// The last read was incomplete, return as many of the bytes that
+	// didn't fit as the caller's buffer can hold.
 	if len(c.nextMsg) > 0 {
-		msgLen := len(c.nextMsg)
-		copy(b, c.nextMsg)
+		n := copy(b, c.nextMsg)
+		c.nextMsg = c.nextMsg[n:]
 
-		c.nextMsg = nil
-		return msgLen, nil
+		return n, nil
 	}
 
 	requestBytes, err := c.noise.ReadMessage(c.ProxyConn)
@@ -96,17 +96,23 @@ func (c *NoiseGrpcConn) Read(b []byte) (n int, err error) {
 		return 0, fmt.Errorf("error decrypting payload: %v", err)
 	}
 
-	// Do we need to read this message in two parts? We cannot give the
-	// gRPC layer above us more than the default read buffer size of 32k
-	// bytes at a time.
-	if len(requestBytes) > defaultGrpcWriteBufSize {
-		nextMsgLen := len(requestBytes) - defaultGrpcWriteBufSize
+	// Do we need to read this message in several parts? We can never give
+	// the caller more than its buffer holds, and we cannot give the gRPC
+	// layer above us more than the default read buffer size of 32k bytes
+	// at a time.
+	maxRead := len(b)
+	if maxRead > defaultGrpcWriteBufSize {
+		maxRead = defaultGrpcWriteBufSize
+	}
+
+	if len(requestBytes) > maxRead {
+		nextMsgLen := len(requestBytes) - maxRead
 		c.nextMsg = make([]byte, nextMsgLen)
 
-		copy(c.nextMsg[0:nextMsgLen], requestBytes[defaultGrpcWriteBufSize:])
+		copy(c.nextMsg[0:nextMsgLen], requestBytes[maxRead:])
 
-		copy(b, requestBytes[0:defaultGrpcWriteBufSize])
-		return defaultGrpcWriteBufSize, nil
+		copy(b, requestBytes[0:maxRead])
+		return maxRead, nil
 	}
 
 	copy(b, requestBytes)
